@@ -30,6 +30,8 @@ def render_source(sc):
         return (f"# probe: class M(StateMachine): s0 = State(initial=True); go = s0.to.itself(cond={sc['text']!r}); "
                 f"ga is {'async' if sc['coro'][0] else 'plain'}, gb is {'async' if sc['coro'][1] else 'plain'}; "
                 f"on_go is a coroutine (async engine); valuations {sc['vals']}\n")
+    if sc.get("probe") == "refusal":
+        return "# probe: " + " ".join(refusal_probe.__doc__.split()) + "\n"
     if sc.get("probe") == "d18":
         return "# probe: plain after_go callback calls self.send('back') on a machine with a coroutine on_back\n"
     return eng.render_source(sc)
@@ -72,7 +74,8 @@ def variants(base, rng):
             v["twin_decoy"] = "plain" if not any(x[0] == 0 for x in acoro) else None
         # some of them (never the first: the engine is chosen from coroutine *functions*) are plain functions
         # returning the coroutine / an awaitable object
-        v["wrapped_coros"] = [list(x) for x in acoro[1:] if rng.random() < 0.3] if rng.random() < 0.5 else []
+        v["wrapped_coros"] = [list(x) for x in acoro[1:] if rng.random() < 0.3] if (rng.random() < 0.5 and acoro[0][1] == 0) else []
+        v["marked_coros"] = rng.random() < 0.2 and not v.get("callable_names") and not v.get("inst_hooks") and not v.get("state_decor")
         have = {tuple(x) for x in acoro}
         for row in v["tbl"]:
             if (row[0], row[1], row[2]) in have:
@@ -152,7 +155,52 @@ def d18_probe(sc):
     return {"probe": "d18", "bad": [] if got == [None] else [got]}
 
 
+def refusal_probe(sc):
+    """an event refused after its guard changed the stored state through the low-level API: the refusal names the
+    state the machine was in when the event started - on the async engine as on the sync one"""
+    from statemachine import State, StateMachine
+    from statemachine.exceptions import TransitionNotAllowed
+
+    def build(is_async):
+        body = {"a": State(initial=True), "b": State(), "c": State()}
+        name = "veto_coroutine" if is_async else "veto"      # (distinct names: the signature cache is keyed by name, D7)
+        body["go"] = body["a"].to(body["b"], cond=name) | body["b"].to(body["c"]) | body["c"].to(body["a"])
+        if is_async:
+            async def veto_coroutine(self):
+                self.current_state_value = "c"
+                return False
+            body[name] = veto_coroutine
+        else:
+            def veto(self):
+                self.current_state_value = "c"
+                return False
+            body[name] = veto
+        return type(StateMachine)("R", (StateMachine,), body)
+    got = {}
+    with warnings.catch_warnings():
+        warnings.simplefilter("ignore")
+        for is_async in (False, True):
+            sm = build(is_async)()
+            if is_async:
+                sm.activate_initial_state()
+            try:
+                sm.send("go")
+                got[is_async] = "fired"
+            except TransitionNotAllowed as e:
+                got[is_async] = (str(e.event), e.state.id, sm.current_state.id)
+            except Exception as e:  # noqa: BLE001
+                got[is_async] = repr(e)
+    bad = []
+    if got[False] != ("go", "a", "c"):
+        bad.append(f"sync machine: {got[False]}")
+    if got[True] != got[False]:
+        bad.append(f"async machine {got[True]} differs from the sync one {got[False]}")
+    return {"probe": "refusal", "bad": bad}
+
+
 def run_impl(sc):
+    if sc.get("probe") == "refusal":
+        return refusal_probe(sc)
     if sc.get("probe") == "expr":
         return expr_probe(sc)
     if sc.get("probe") == "d18":
@@ -213,6 +261,7 @@ def generate(rng, tier):
             pr.append({"probe": "expr", "text": text, "coro": list(flags),
                        "vals": [[a, b_] for a in (True, False) for b_ in (True, False)]})
     pr.append({"probe": "d18"})
+    pr.append({"probe": "refusal"})
     scs += pr
     parts.append(("probes: boolean guard expressions with coroutine operands in every position x all boolean "
                   "valuations, on the async engine, against Python's value; a plain callback sending an event "
